@@ -5,8 +5,9 @@
     by tools/py2coq/gen_c17.py (Gen/FoldRefs.v): which stored DM / period each delay computation subtracts /
     divides by.  [F] and [T] (the dispersion delays in bins and the linear period drift) are arbitrary functions of
     exactly the arguments the code passes. *)
-From Coq Require Import ZArith QArith List Bool Permutation.
-Require Import SPP.Base.Rt SPP.Gen.FoldRefs SPP.Model.C17_FoldedCube SPP.Proofs.C17_rot SPP.Proofs.C17_foldedcube.
+From Coq Require Import String ZArith QArith Qabs List Bool Permutation.
+Require Import SPP.Base.Rt SPP.Gen.FoldRefs SPP.Model.C17_FoldedCube SPP.Model.C17_Int32 SPP.Model.C17_Laws SPP.Model.C17_Header
+  SPP.Proofs.C17_rot SPP.Proofs.C17_foldedcube SPP.Proofs.C17_int32 SPP.Proofs.C17_laws SPP.Proofs.C17_header.
 Import ListNotations.
 Open Scope Z_scope.
 
@@ -159,3 +160,101 @@ Proof. exact fold_examples. Qed.
 Example C17_np_roll : rot 3 [0; 1; 2; 3; 4] = [3; 4; 0; 1; 2] /\ rot (-1) [0; 1; 2; 3; 4] = [4; 0; 1; 2; 3] /\
   rot 13 [0; 1; 2; 3; 4] = [3; 4; 0; 1; 2].
 Proof. vm_compute. repeat split; reflexivity. Qed.
+
+(** ** the int32 width of the shift bookkeeping ([run32], Model/C17_Int32.v: `drifts - self._xph_shifts`, `-1 * self._xph_shifts`
+    and `-delays[k]` wrap modulo 2**32).  While no shift reaches 2**30 bins the int32 machine IS the machine of the theorems
+    above (for every choice of references), so the whole property holds for it; beyond, it is history dependent even with the
+    folding values as references (the side condition is necessary, not a convenience). *)
+Theorem C17_int32_faithful : forall R nsubints nsubbands nbins tobs F T c0 dm0 p0 ops, shifts_bounded F T ->
+  run32 R nsubints nsubbands nbins tobs F T ops (init c0 dm0 p0) = run R nsubints nsubbands nbins tobs F T ops (init c0 dm0 p0).
+Proof. exact int32_faithful. Qed.
+Print Assumptions C17_int32_faithful.
+
+Theorem C17_int32_history_independent : sound_refs gen_refs = true ->
+  forall nsubints nsubbands nbins tobs F T c0 dm0 p0 ops, shifts_bounded F T ->
+    nsubbands <> 0 -> nbins <> 0 -> ~ (p0 == 0)%Q ->
+    exists s, run32 gen_refs nsubints nsubbands nbins tobs F T ops (init c0 dm0 p0) = Some s /\
+      data s = expected nbins tobs F T c0 dm0 p0 (final_dm ops dm0) (final_period ops p0) /\
+      dm s = final_dm ops dm0 /\ period s = final_period ops p0.
+Proof. exact (int32_history_independent gen_refs). Qed.
+Print Assumptions C17_int32_history_independent.
+
+(** two period targets whose shifts (+-3*2**29 bins) each fit int32: going through the first one leaves sub-integration 1
+    one bin off, with identical bookkeeping and reported period, and the return to the folding period does not restore the cube *)
+Theorem C17_int32_wrap_refuted :
+  (forall i, Z.abs (w32_T (3 * (w32_up - 1))%Q i) < 2147483648 \/ ~ (0 <= i < 2)) /\
+  exists s1 s2 s3, w32_run_fold [UPeriod w32_up; UPeriod w32_down] = Some s1 /\ w32_run_fold [UPeriod w32_down] = Some s2 /\
+    w32_run_fold [UPeriod w32_up; UPeriod w32_down; UPeriod 1%Q] = Some s3 /\
+    period s1 = period s2 /\ tph s1 1 = tph s2 1 /\ data s1 <> data s2 /\ data s3 <> w32_cube /\
+    prof (data s1) 1 0 = [11; 12; 10] /\ prof (data s2) 1 0 = [10; 11; 12].
+Proof. exact int32_wrap_witness. Qed.
+Print Assumptions C17_int32_wrap_refuted.
+
+Example C17_shifts_bounded_example : shifts_bounded (fun _ _ b => b mod 1000) (fun x i => (i * Qround.Qfloor x) mod 1000 - 500).
+Proof. exact shifts_bounded_example. Qed.
+
+(** ** shapes: once the source restores one dimension, _fph_shifts never becomes 0-d, for any references and any history; and a
+    cube with ONE sub-band runs every history, ends in the expected cube and keeps its shape *)
+Theorem C17_never_0d : forall R nsubints nsubbands nbins tobs F T c0 dm0 p0, r_dm_1d R = true ->
+  forall ops s, run R nsubints nsubbands nbins tobs F T ops (init c0 dm0 p0) = Some s -> fph_0d s = false.
+Proof. exact never_0d. Qed.
+Print Assumptions C17_never_0d.
+
+Theorem C17_one_subband : sound_refs gen_refs = true -> forall nsubints nbins tobs F T c0 dm0 p0 ops, nbins <> 0 -> ~ (p0 == 0)%Q ->
+  exists s, run gen_refs nsubints 1 nbins tobs F T ops (init c0 dm0 p0) = Some s /\ fph_0d s = false /\
+    data s = expected nbins tobs F T c0 dm0 p0 (final_dm ops dm0) (final_period ops p0) /\
+    length (data s) = length c0 /\ (forall i, length (nth i (data s) []) = length (nth i c0 [])).
+Proof. exact (one_subband gen_refs). Qed.
+Print Assumptions C17_one_subband.
+
+(** ** rotation amounts, and the law anchors: when the delay functions are the dispersion drift / the linear period drift rounded
+    to the nearest bin (up to eps), every profile (i, b) after ANY history is the folded profile rotated by zd + zp with zd within
+    1/2 + eps of K*(dm_final - dm_fold)*(f_b^-2 - fch1^-2)/(period_fold/nbins) and zp within 1/2 + eps of
+    i * ((p_final/p_fold - 1) * tobs * nbins / p_fold) / nsubints (both 0 exactly at the folding values) *)
+Theorem C17_rotation_amounts : sound_refs gen_refs = true ->
+  forall nsubints nsubbands nbins tobs F T c0 dm0 p0 ops, nsubbands <> 0 -> nbins <> 0 -> ~ (p0 == 0)%Q ->
+  exists s, run gen_refs nsubints nsubbands nbins tobs F T ops (init c0 dm0 p0) = Some s /\
+    forall i b, prof (data s) i b =
+      rot (dm_shift nbins F dm0 p0 (final_dm ops dm0) (Z.of_nat b) + p_shift nbins tobs T p0 (final_period ops p0) (Z.of_nat i))
+          (prof c0 i b).
+Proof. exact (rotation_amounts gen_refs). Qed.
+Print Assumptions C17_rotation_amounts.
+
+Theorem C17_law_anchored : sound_refs gen_refs = true ->
+  forall K fch1 chanw eps nsubints nsubbands nbins tobs F T c0 dm0 p0 ops, (0 <= eps)%Q ->
+  dm_law K fch1 chanw eps F -> p_law nsubints eps T -> nsubbands <> 0 -> nbins <> 0 -> ~ (p0 == 0)%Q ->
+  exists s, run gen_refs nsubints nsubbands nbins tobs F T ops (init c0 dm0 p0) = Some s /\
+    forall i b, exists zd zp, prof (data s) i b = rot (zd + zp) (prof c0 i b) /\
+      (Qabs (inject_Z zd - dm_exact K fch1 chanw nbins dm0 p0 (final_dm ops dm0) (Z.of_nat b)) <= (1#2) + eps)%Q /\
+      (Qabs (inject_Z zp - p_exact nsubints nbins tobs p0 (final_period ops p0) (Z.of_nat i)) <= (1#2) + eps)%Q.
+Proof. exact (law_anchored gen_refs). Qed.
+Print Assumptions C17_law_anchored.
+
+Example C17_laws_example : forall K fch1 chanw n,
+  dm_law K fch1 chanw 0 (fun d t b => Qnearest (dm_drift K fch1 chanw d t b)) /\ p_law n 0 (fun x i => Qnearest (p_drift n x i)).
+Proof. exact laws_example. Qed.
+
+(** ** frame condition on the observational metadata.  [header_writes] (Gen/FoldRefs.v) is REGENERATED from the source: every
+    place in update_dm / update_period / _get_dmdelays / _get_pdelays that could modify the header.  It is empty, hence: *)
+Theorem C17_header_writes_none : header_writes = [].
+Proof. reflexivity. Qed.
+
+Theorem C17_header_untouched : forall R nsubints nsubbands nbins FH T ops s h s' h',
+  runH header_writes R nsubints nsubbands nbins FH T ops (s, h) = Some (s', h') -> h' = h.
+Proof. exact (fun R a b c FH T => header_untouched header_writes R a b c FH T C17_header_writes_none). Qed.
+Print Assumptions C17_header_untouched.
+
+Theorem C17_header_frame : sound_refs gen_refs = true ->
+  forall nsubints nsubbands nbins FH T c0 dm0 p0 h ops, nsubbands <> 0 -> nbins <> 0 -> ~ (p0 == 0)%Q ->
+  exists s, runH header_writes gen_refs nsubints nsubbands nbins FH T ops (init c0 dm0 p0, h) = Some (s, h) /\
+    data s = expected nbins (h_tobs h) (FH h) T c0 dm0 p0 (final_dm ops dm0) (final_period ops p0).
+Proof. exact (header_frame header_writes gen_refs C17_header_writes_none). Qed.
+Print Assumptions C17_header_frame.
+
+(** the hypothesis matters: a source that stored to header.tobs in an update would make a repeated update move the cube *)
+Theorem C17_header_write_refuted :
+  exists c1 c2 h1 h2, wH_obs ["tobs"%string] [UPeriod wH_p] = Some (c1, h1) /\
+    wH_obs ["tobs"%string] [UPeriod wH_p; UPeriod wH_p] = Some (c2, h2) /\ c1 <> c2 /\ h1 <> wH_h /\
+    wH_obs [] [UPeriod wH_p; UPeriod wH_p] = Some (c1, wH_h) /\ c1 <> cube_art 2.
+Proof. exact header_write_witness. Qed.
+Print Assumptions C17_header_write_refuted.
